@@ -117,6 +117,9 @@ void h_c17_location(void)
 #ifdef EXCLUDE_KF
     __CPROVER_assume(!KF2_INVARIANT_CLASS);
 #endif
+    /* a RATE operand mentions the clock: its hybrid / clock summaries are those of the clock's declared type */
+    __CPROVER_assume(k0 != K_RATE || (HYB(g0) == ((cw & VW_HYBRID) != 0) && CLK(g0)));
+    __CPROVER_assume(k1 != K_RATE || (HYB(g1) == ((cw & VW_HYBRID) != 0) && CLK(g1)));
     w_c17_location(empty, kind, nsub, g0, g1, k0, k1, tk0, tk1, cw, v0, v1, d0, d1, sym, sto, con, &osym, &osto, &ocon);
     _Bool hybrid = (cw & VW_HYBRID) != 0;
 #define NOT01(tk, v, d) (((tk) == K_DOUBLE) ? ((d) != 0.0 && (d) != 1.0) : ((tk) == K_INT ? ((v) != 0 && (v) != 1) : 0))
